@@ -14,10 +14,19 @@ def run(tier, seed):
     if r["error"]:
         raise vlib.ToolError("M1 (pattern universe) failed: " + r["error"][:1500])
     v.add_tlc(r)
+    # second alphabet: regex metacharacters as literal pattern text (they must be escaped in the emitted url-filter)
+    sigma2 = ['"a"', '"+"', '"("', '"."', '"/"', '"^"']
+    r2 = vlib.run_tlc("MC_C02", c02mod.CFG % (3 if tier == "quick" else 4, ", ".join(sigma2), "TRUE", "FALSE", "FALSE"), wd, "mc_c02_meta", workers=12, timeout=3000)
+    if r2["error"]:
+        raise vlib.ToolError("M1 (metacharacter pattern universe) failed: " + r2["error"][:1500])
+    v.add_tlc(r2)
     cases = os.path.join(wd, "c02cases.jsonl")
-    vlib.write_jsonl(cases, r["exports"])
+    vlib.write_jsonl(cases, r["exports"] + [e for e in r2["exports"] if e.get("k") != "universe"])
     tr = os.path.join(wd, "trace.ndjson")
-    n = 1200 if tier == "quick" else 8000
+    allcases = r["exports"] + r2["exports"]
+    n_plain = sum(1 for e in allcases if e.get("k") == "c02" and "*" not in e["rule"] and "^" not in e["rule"])
+    # every plain pattern and hand-written rule once, then random rule sets
+    n = n_plain + 100 + (1200 if tier == "quick" else 8000)
     summ = json.loads(vlib.run_harness(["record", "c20", tr, str(seed), str(n), cases], timeout=3000))
     vlib.require(summ["counters"]["plain_c02_patterns"] > 50, "no plain patterns for the implication clause")
     rt, done, mism = vlib.trace_validate("Trace_C20", tr, wd, "trace", heap="8g")
